@@ -288,7 +288,9 @@ def armed (s : St) (j : Nat) : Bool :=
   | .ready => true
   | .parked => s.notified (s.tok j)
   | .sPoll => true
-  | .sFlag | .sCmp => s.waker j != some (s.tok j)      -- will store its waker and wake itself
+  -- will store its waker and wake itself -- or will park with the notification already in
+  | .sFlag => s.keep j && (s.waker j != some (s.tok j) || s.notified (s.tok j))
+  | .sCmp => s.waker j != some (s.tok j) || s.notified (s.tok j)
   | .sLock | .sSpin | .sStore | .sSelfWake => true
   | _ => false
 
